@@ -357,6 +357,14 @@ def equivalent(a, b, extra_rules=None, _case_split=True) -> str:
         d = sp.expand(a - b)
         if d == 0:
             return Verdict.EQUAL
+        # exp(i p) written as cos p + i sin p
+        if d.has(sp.I) and d.has(sp.exp):
+            def euler(e):
+                q = sp.expand(e.args[0] / sp.I)
+                return sp.cos(q) + sp.I * sp.sin(q)
+            d_trig = sp.expand(d.replace(lambda e: isinstance(e, sp.exp) and e.args[0].has(sp.I) and not sp.expand(e.args[0] / sp.I).has(sp.I), euler))
+            if d_trig == 0:
+                return Verdict.EQUAL
         # opaque sub-terms are abstracted to symbols so that the residual algebra stays small
         small = abstract_opaque(d)
         if sp.count_ops(small) <= 400 and not _numerically_nonzero(small):
@@ -389,6 +397,13 @@ def equivalent(a, b, extra_rules=None, _case_split=True) -> str:
                     break
             if all_equal:
                 return Verdict.EQUAL
+    # the same opaque operator applied to pairwise equivalent operands
+    if _case_split and fname(a) is not None and fname(a) == fname(b) and len(a.args) == len(b.args) and fname(a) not in ("ite",):
+        try:
+            if all(x == y or equivalent(x, y, _case_split=False) == Verdict.EQUAL for x, y in zip(a.args, b.args)):
+                return Verdict.EQUAL
+        except Exception:
+            pass
     if has_unknown(a) or has_unknown(b):
         return Verdict.UNKNOWN
     # array-structure operators (slices, stores, rolls, loop summaries): compare the arrays the two terms denote
